@@ -2,19 +2,20 @@
 # usage: keep_seed.sh <PROP> <x>  — copies a confirmed seed into /verif/seeded/<PROP>-<x>/
 set -eu
 P="$1"; X="$2"
-SRC=/tmp/seed/$P/_seed/$X; DST=/verif/seeded/$P-$X
-grep -q VERDICT=confirmed /tmp/confirm/$P-$X.result
+SEEDROOT=${SEEDROOT:-/tmp/seed}; CONF=${CONF:-/tmp/confirm}; AS=${AS:-$X}
+SRC=$SEEDROOT/$P/_seed/$X; DST=/verif/seeded/$P-$AS
+grep -q VERDICT=confirmed $CONF/$P-$X.result
 mkdir -p "$DST"; cp -r "$SRC"/. "$DST"/
-python3 - "$P" "$X" <<'PY'
+python3 - "$P" "$X" "$AS" "$CONF" <<'PY'
 import json,sys,re
-P,X=sys.argv[1:3]
-res=open(f'/tmp/confirm/{P}-{X}.result').read()
-readme=open(f'/verif/seeded/{P}-{X}/README.md').read()
-meta={"id":f"{P}-{X}","breaks_property":P,
+P,X,AS,CONF=sys.argv[1:5]
+res=open(f'{CONF}/{P}-{X}.result').read()
+readme=open(f'/verif/seeded/{P}-{AS}/README.md').read()
+meta={"id":f"{P}-{AS}","breaks_property":P,
  "source":"independent sub-agent given only the property text and a scratch worktree",
  "needs_to_manifest":readme.strip()[:1500],
  "confirmed_by":"tools/confirm_seed.sh in a scratch worktree at the /repo HEAD named below: demo.sh exits 0 unpatched; with patch.diff applied `go build ./...` succeeds, the unedited suite (go test ./... in . and ./tests) passes, demo.sh exits non-zero",
  "confirmation_log":res.strip().splitlines()}
-json.dump(meta,open(f'/verif/seeded/{P}-{X}/meta.json','w'),indent=1)
+json.dump(meta,open(f'/verif/seeded/{P}-{AS}/meta.json','w'),indent=1)
 PY
 echo kept $DST
